@@ -294,7 +294,7 @@ def v2_rule(f, rep):
                           'version 2 (they belong to the header extensions), the specified default is %d' % (name, fmt_itv(bad[name]), want[name][0]))
 
 
-def geometry_rule(f, rep):
+def geometry_rule(f, rep, rid='C09.4'):
     cands = [b.path for b in f.body_list if b.path == 'dev::info::Qcow2Info::new']
     if not cands:
         raise AnalysisError('Qcow2Info::new not found')
@@ -315,13 +315,23 @@ def geometry_rule(f, rep):
     pf = c14.adt_fields(f, f.types[f.types[b.locals[ppos]]['t']]['p'])
     bad = {}
     n = 0
+    n_custom = [0]
     checked = set()
     for cb in range(9, 22):
-        for ro in range(0, 7):
+      for ro in range(0, 14):
+        # ro 7..13: the same refcount widths once more with *custom* cache parameters - slices of different sizes for the two
+        # caches (the defaults give both the same size, so a field derived from the wrong one would go unnoticed)
+        custom = None
+        if ro >= 7:
+            ro -= 7
+            if cb == 9:
+                continue
+            custom = (min(cb, 12), 9) if ro % 2 == 0 else (9, min(cb, 12))
+        if True:
             ai = AbsInt(f)
             got = []
 
-            def setup(ai_, st, frame, b_, cb=cb, ro=ro):
+            def setup(ai_, st, frame, b_, cb=cb, ro=ro, custom=custom):
                 hv = st.env[(('L', frame, hpos), ())]
                 ridx = hf['raw'][0]
 
@@ -339,7 +349,10 @@ def geometry_rule(f, rep):
                             ai_.refine(st, ai_.read_cell(st, cell, tid), 9, 12)
                     elif ai_.kind_of_tid(tid) == 'Option':
                         v = ai_.read_cell(st, cell, tid)
-                        if v[0] == 'opt':
+                        if custom is not None and ('l2' in name or 'rb' in name):
+                            bits = custom[0] if 'l2' in name else custom[1]
+                            ai_.write_cell(st, cell, ('opt', 'Option', ('agg', 'tuple', 0, (('c', bits), ('c', 1 << 20))), ('c', 1)))
+                        elif v[0] == 'opt':
                             ai_.assume(st, v[3], False)
 
             def on_stmt(ai_, st, frame, b_, bi, si, s, v):
@@ -360,6 +373,14 @@ def geometry_rule(f, rep):
             sl = min(12, cb)
             l2sb = fld('l2_slice_bits')
             rbsb = fld('rb_slice_bits')
+            if custom is not None:
+                n_custom[0] += 1
+                for name, want in (('l2_slice_bits', custom[0]), ('rb_slice_bits', custom[1]),
+                                   ('l2_cache_cnt', (1 << 20) >> custom[0]), ('rb_cache_cnt', (1 << 20) >> custom[1])):
+                    checked.add(name)
+                    i = fld(name)
+                    if i != (want, want):
+                        bad.setdefault(name, (i, cb, ro, '%d with cache parameters l2=(%d, 1 MiB) rb=(%d, 1 MiB)' % (want, custom[0], custom[1])))
             exp = {
                 'cluster_shift': cb, 'refcount_order': ro,
                 'in_cluster_offset_mask': (1 << cb) - 1,
@@ -391,12 +412,13 @@ def geometry_rule(f, rep):
                 if i is None or i[0] < 2:
                     bad.setdefault(name, (i, cb, ro, 'at least 2'))
     rep.count('geometry configurations (cluster_bits x refcount_order)', n)
+    rep.floor('geometry configurations with custom cache parameters (slice sizes differ)', n_custom[0], 84)
     for name in sorted(checked):
         ok = name not in bad
-        rep.ob('C09.4', 'Qcow2Info.%s' % name, ok, 'equals the formula in all %d configurations' % n if ok else
+        rep.ob(rid, 'Qcow2Info.%s' % name, ok, 'equals the formula in all %d configurations' % n if ok else
                'is %s for cluster_bits %d refcount_order %d, expected %s' % (fmt_itv(bad[name][0]), bad[name][1], bad[name][2], bad[name][3]))
         if not ok:
-            rep.violation('C09.4', 'C09.4:%s' % name, 'src/dev/info.rs',
+            rep.violation(rid, '%s:%s' % (rid, name), 'src/dev/info.rs',
                           'Qcow2Info::new derives %s = %s for cluster_bits %d, refcount_order %d; the specification gives %s' % (
                               name, fmt_itv(bad[name][0]), bad[name][1], bad[name][2], bad[name][3]))
     rep.floor('geometry fields checked', len(checked), 12)
